@@ -17,6 +17,8 @@ PLAN = {
     "c08_reeval": ["asan"],
     "c04_lookup": ["asan"],
     "c09_stack": ["asan"],
+    "c14_isolation": ["asan"],
+    "c13_threads": ["tsan"],
 }
 
 
